@@ -73,9 +73,7 @@ Proof. destruct v; cbn; [apply String.eqb_refl | reflexivity]. Qed.
 Lemma fevent_eq_refl (e : fevent) : (if fevent_eq_dec e e then true else false) = true.
 Proof. destruct (fevent_eq_dec e e); congruence. Qed.
 
-Lemma event_faithful pc key v del j x c e rv :
-  as_feed_event pc key (mkEvent v del j x c e rv) = fevent_of_view pc key (view_of_row (new_row v j c e x del rv)).
-Proof. reflexivity. Qed.
+
 
 Ltac inv_all :=
   repeat match goal with
